@@ -61,6 +61,11 @@ CHECKS = {
          "After every message: ids fresh and never reused, address map only grows, code at an id changes only placeholder -> EVM/EthAccount, permitted (creator, code) pairs only, CREATE/CREATE2/CreateExternal addresses equal the Ethereum formulas, no deployment over a live actor, reserved ranges never assigned, nonce delta == create attempts that passed the endowment check. Held on the histories explored.",
          "Trusted: MVM creation/placeholder semantics; own Keccak/RLP; the reserved-range rejection itself cannot be exercised (needs a hash preimage) and is monitored passively.",
          "DESIGN.md 3/C20"),
+ "C13": ("exploration",
+         "three protocol automata (owner / worker key / beneficiary) judged on miner-info transitions with the observed caller, plus rights probes on restored snapshots",
+         "Every change of owner, worker, control addresses, beneficiary, terms and pending data between two consecutive observations must be a transition the handover protocols allow for the caller and epoch seen (two-sided owner change, worker change no earlier than the delay and only via owner confirmation or the deadline callback, beneficiary change with nominee + active beneficiary approval); rejected calls change nothing; current parties keep their rights and nominees have none (probed). Held on what was explored.",
+         "Trusted: MVM; beneficiary term 'active' = not expired and quota not exhausted.",
+         "DESIGN.md 3/C13"),
  "C16": ("exploration",
          "history + executable reference model (payment channel) over generated voucher/settle/collect histories on the real actor",
          "Every generated history is executed on the real paych actor inside the monitoring VM; after every call the observed acceptance, to_send, lanes, settle heights, payouts and actor deletion are compared with a literal reference channel. Held on the histories explored; not a proof.",
